@@ -386,7 +386,7 @@ func ruleTokenPos(c *Ctx, r *Report, rule string) {
 				}
 				switch kv.Key.(*ast.Ident).Name {
 				case "pos":
-					if be, isB := stripParens(kv.Value).(*ast.BinaryExpr); isB && be.Op == token.ADD {
+					if be, isB := c.unfoldTrivial(kv.Value).(*ast.BinaryExpr); isB && be.Op == token.ADD {
 						a, b := c.fieldPath(be.X), c.fieldPath(be.Y)
 						ok = (a == "<lexer>.pos" && b == "<lexer>.posShift") || (b == "<lexer>.pos" && a == "<lexer>.posShift")
 					}
